@@ -115,11 +115,58 @@ class SimRandom(object):
             raise ValueError('empty range for randrange() (%d, %d, %d)' % (a, b + 1, b + 1 - a))
         return a + int(self.c * (b - a + 1))
 
+    # the other common draws, all as pure functions of the scenario constant
+    def uniform(self, a, b):
+        self.calls += 1
+        return a + (b - a) * self.c
+
+    def randrange(self, start, stop=None, step=1):
+        self.calls += 1
+        if stop is None:
+            start, stop = 0, start
+        n = len(range(start, stop, step))
+        if n <= 0:
+            raise ValueError('empty range for randrange()')
+        return start + step * int(self.c * n)
+
+    def choice(self, seq):
+        self.calls += 1
+        return seq[int(self.c * len(seq))]
+
+    def getrandbits(self, k):
+        self.calls += 1
+        return int(self.c * (1 << k))
+
     def __getattr__(self, name):
         return getattr(self._fallback, name)
 
 
+class SimTime(object):
+    """`time` module stand-in for code under test that reads the clock through time.time()."""
+
+    def __init__(self):
+        import time as _t
+        self._t = _t
+
+    def time(self):
+        return (CLOCK.read() - _real_dt.datetime(1970, 1, 1)).total_seconds()
+
+    def monotonic(self):
+        return self.time()
+
+    perf_counter = monotonic
+
+    def localtime(self, secs=None):
+        return self._t.gmtime(self.time() if secs is None else secs)
+
+    gmtime = localtime
+
+    def __getattr__(self, name):
+        return getattr(self._t, name)
+
+
 RANDOM = SimRandom()
+TIME = SimTime()
 
 
 class Sink(io.TextIOBase):
@@ -151,6 +198,24 @@ def install():
     dat.datetime = DT_SHIM
     dp.datetime = DT_SHIM
     mt.random = RANDOM
+    # wherever else the code under test reads the clock or draws random numbers (a refactoring may move
+    # NOW() or RAND() into another module): same seams, found by looking at the module's own source
+    import inspect
+    import time as _real_time
+    for name, mod in list(sys.modules.items()):
+        if mod is None or not name.startswith('hotxlfp.'):
+            continue
+        try:
+            src = inspect.getsource(mod)
+        except (OSError, TypeError):
+            continue
+        reads_clock = ('.now(' in src or '.today(' in src or '.utcnow(' in src)
+        if getattr(mod, 'datetime', None) is _real_dt and reads_clock:
+            mod.datetime = DT_SHIM
+        if getattr(mod, 'random', None) is _real_random:
+            mod.random = RANDOM
+        if getattr(mod, 'time', None) is _real_time and ('time.time(' in src or 'time.monotonic(' in src or 'time.localtime(' in src):
+            mod.time = TIME
     if not _installed:
         sys.stderr_real = sys.stderr
     sys.stderr = SINK
